@@ -358,7 +358,7 @@ func checkSet(defs []*Def, src string) (intersecting bool, realConflict bool, er
 		return intersecting, realConflict, fmt.Errorf("DFA() reports %v although no text is matched by two definitions without a single literal breaking the tie\nspecification:\n%s", derr, src)
 	}
 	if derr != nil {
-		if !strings.Contains(derr.Error(), "conflicting definitions") {
+		if !strings.Contains(strings.ToLower(derr.Error()), "conflict") {
 			return intersecting, realConflict, fmt.Errorf("DFA() fails with an error that is not a conflict report: %v\nspecification:\n%s", derr, src)
 		}
 		byName := map[string]int{}
